@@ -363,6 +363,34 @@ fn main() {
         let mut im: BTreeMap<i64, u64> = BTreeMap::new(); im.insert(i64::MIN, u64::MAX); im.insert(0, 0); im.insert(7, 1);
         match (sonic_rs::to_string(&im), serde_json::to_string(&im)) { (Ok(a), Ok(b)) if a != b => report("C05", format!("to_string of an integer-keyed map gives {:?}, reference {:?}", a, b)), _ => {} }
     }
+    // C02, UTF-8 half through the Deserializer API (found F22): invalid UTF-8 inside string literals must be rejected for
+    // every target, also those whose strings are skipped or DOM-parsed; a byte string that is valid must be accepted
+    if want("C02") || want("C01") {
+        let pid = if want("C02") { "C02" } else { "C01" };
+        let bads: [&[u8]; 6] = [b"\"a\xff\"", b"[\"\xc3\"]", b"{\"k\":\"\xff\"}", b"{\"\xff\":1}", b"\"\\n\xff\"", b"[1,{\"a\":[\"x\xf0\x28\"]}]"];
+        for b in bads.iter() {
+            macro_rules! tgt { ($t:ty, $name:expr) => {
+                let r = catch_unwind(AssertUnwindSafe(|| sonic_rs::Deserializer::from_slice(b).deserialize::<$t>().is_ok()));
+                match r { Ok(true) => report(pid, format!("Deserializer::from_slice({}).deserialize::<{}>() accepted invalid UTF-8", show(b), $name)), Err(_) => report(pid, format!("Deserializer::from_slice({}).deserialize::<{}>() panics", show(b), $name)), _ => {} }
+                let r = catch_unwind(AssertUnwindSafe(|| sonic_rs::from_slice::<$t>(b).is_ok()));
+                if let Ok(true) = r { report(pid, format!("from_slice::<{}>({}) accepted invalid UTF-8", $name, show(b))); }
+            } }
+            tgt!(sonic_rs::Value, "Value"); tgt!(sonic_rs::LazyValue, "LazyValue"); tgt!(sonic_rs::OwnedLazyValue, "OwnedLazyValue");
+            tgt!(serde::de::IgnoredAny, "IgnoredAny"); tgt!(serde_json::Value, "serde_json::Value");
+            if b[0] == b'"' {
+                tgt!(String, "String");
+                // the serde trait path (no document-level check behind it): the string decoder itself must refuse
+                let r = catch_unwind(AssertUnwindSafe(|| { let mut de = sonic_rs::Deserializer::from_slice(b); <String as serde::Deserialize>::deserialize(&mut de).map(|s| s.into_bytes()) }));
+                if let Ok(Ok(bytes)) = r { report(pid, format!("String::deserialize(&mut Deserializer::from_slice({})) returned a String with the bytes {:?}", show(b), bytes)); }
+            }
+            let mut doc = b.to_vec(); doc.extend_from_slice(b" 1");
+            let first = catch_unwind(AssertUnwindSafe(|| sonic_rs::Deserializer::from_slice(&doc).into_stream::<sonic_rs::Value>().next().map(|x| x.is_ok())));
+            if let Ok(Some(true)) = first { report(pid, format!("stream over {} yielded a Value holding invalid UTF-8", show(&doc))); }
+        }
+        let good = "[\"é\",{\"ключ\":\"值\"}] true".as_bytes();
+        let st: Vec<bool> = sonic_rs::Deserializer::from_slice(good).into_stream::<sonic_rs::Value>().take(2).map(|x| x.is_ok()).collect();
+        if st != vec![true, true] { report(pid, format!("stream over valid UTF-8 {} gives {:?}", show(good), st)); }
+    }
     // C03 (lossy configuration): a stream of Values over input with invalid UTF-8 inside string literals — every
     // document after the first must still be read from its own first byte
     if want("C03") {
@@ -409,6 +437,14 @@ fn main() {
             cmp::<u64>(txt, "u64", false);
             cmp::<i64>(txt, "i64", false);
             cmp::<(bool, u8)>(txt, "(bool,u8)", false);
+        }
+        // unknown (ignored) fields: whatever is skipped must still be one well-formed value
+        #[derive(serde::Deserialize, PartialEq, Debug)] struct OnlyA { a: i32 }
+        for d in &docs {
+            let Ok(txt) = std::str::from_utf8(d) else { continue };
+            if txt.len() > 40 { continue; }
+            cmp::<OnlyA>(&format!("{{\"a\":1,\"zz\":{}}}", txt), "struct OnlyA{a:i32}", false);
+            cmp::<OnlyA>(&format!("{{\"zz\":{},\"a\":1}}", txt), "struct OnlyA{a:i32}", false);
         }
         // map keys are quoted numbers / bools: whitespace, signs, leading zeros, fractions inside the quotes
         let inner = ["1", " 1", "1 ", "\\t1", "-1", "- 1", "01", "0", "-0", "1.0", "1e2", "", "+1", "true", " true", "true ", "false", "tru", "1\"", "\\u0031", "18446744073709551616", "-9223372036854775809"];
